@@ -1141,8 +1141,11 @@ def _gen_current(ctx, module):
     the translator). The validation of the translator is therefore run only when the translation is current; the
     re-check of the tie theorems against the new translation is tie.py's job."""
     import tie
-    st = tie.state()
-    ok = not st["unavailable"] and not st["changed"]
+    try:
+        st = tie.state()
+        ok = not st["unavailable"] and not st["changed"]
+    except Exception:
+        ok = False
     ctx.classes["gen-validation:" + ("run" if ok else "skipped-source-changed")] = 1
     return ok
 
